@@ -57,6 +57,7 @@ size_t g_m; int g_m_old;     /* ghost: an arbitrary position of the result vecto
 size_t g_k; size_t g_k_res, g_k_rej, g_res_calls, g_rej_calls;
 /* ghost: what the continuations were handed */
 const void *g_exp_core; int g_exp_exc; bool g_type_void;
+int g_value, g_chain_value;   /* CoreT<int>::storage of the core handed in / of the promise under consideration (g_exp_core) */
 size_t vs_req_slot;
 static inline size_t *vs_req_at(size_t i) { vs_req_slot = i; return &vs_req_slot; }
 /* std::make_exception_ptr(e): some exception object, known by an identifier */
@@ -120,12 +121,13 @@ static inline int vs_user_resolve(int v)
     int r; g_user_ret = r; return r;
 }
 static inline void vs_user_sink(int v) { if (g_user_calls < 4) g_user_calls++; g_user_arg = v; if (vs_nondet_bool()) vs_exc = VS_EXC_OTHER_STD; }
+/* Core::memory() of a CoreT<int>: the aligned storage, here the one int it holds */
+static inline void *vs_core_memory(struct Pistache_Async_Private_Core *c) { return (const void *)c == g_exp_core ? &g_chain_value : &g_value; }
 /* CoreT<T>::value() (not lowered: reinterpret_cast of the aligned storage): Async::Error unless fulfilled, else the stored value */
-int g_value;
 static inline int *vs_core_value(struct Pistache_Async_Private_Core *c)
 {
     if (c->state != ST_FULFILLED) { vs_exc = VS_EXC_RUNTIME_ERROR; return &g_value; }
-    return &g_value;
+    return (const void *)c == g_exp_core ? &g_chain_value : &g_value;
 }
 /* detail::tryMove<Func>(v): `const T&` (the continuation gets a copy) unless Func takes an rvalue reference (`T&&`: it may move from it) */
 static inline int *vs_trymove_lvalue(int *v) { return v; }
@@ -225,7 +227,7 @@ STUBS = {
 }
 GUARDED_STUBS = {'struct vs_ulock': 'vs_ulock_dtor'}
 ASSUMED = [
-    'Core::construct<T>(args) is NOT lowered (placement new into aligned storage through reinterpret_cast): assumed to raise Async::Error for a void core and BadType on a type mismatch, and otherwise to store the value, set `allocated` and make the core Fulfilled',
+    'Core::construct<T>(args) is lowered and proved for T = int (placement new of a scalar, reinterpret_cast as a C cast; memory() is the core\'s one stored int); the instantiations for tuple / vector / Any are NOT lowered: assumed to raise Async::Error for a void core and BadType on a type mismatch, and otherwise to store the value, set `allocated` and make the core Fulfilled',
     'CoreT<T>::value() is NOT lowered (reinterpret_cast of the storage): assumed to raise Async::Error unless the core is fulfilled, else to hand out the stored value',
     'std::shared_ptr<X> modelled as X* (ownership, lifetime and use-after-free of cores / continuations are not decided)',
     'std::atomic<State> as a plain State, std::mutex / unique_lock / lock_guard as a held flag: single-threaded semantics only (the cross-thread half is property C12, not claimed)',
@@ -246,11 +248,12 @@ def THROW_PAYLOAD(L, t, ce):
     if t == 'Pistache::Async::Private::InternalRethrow':
         return 'g_rethrown_exc = %s;' % L.E(L.inner(ce)[0])
     return ''
+ALLOW_REINTERPRET = True      # Core::construct<int>: reinterpret_cast<T*>(mem) and placement new of a scalar, as in C
 DEFAULT_RULE = True
 OPAQUE_UNKNOWN = True
 OPAQUE_ANY = True
 DEVIRT = {}
-for _f in ('Continuation_Sink_doResolve', 'Continuation_Sink_doReject', 'Chainer_int_call', 'Continuation_Chain_finishResolve', 'Continuation_Chain_finishResolve__lam0', 'Resolver_call_vector', 'Continuation_AddOne_finishResolve', 'Continuation_AddOne_doResolve', 'Continuation_AddOne_doReject', 'Promise_int_isFulfilled', 'Promise_int_isRejected', 'Continuable_int_resolve', 'Continuable_int_reject', 'Promise_int_then_AddOne', 'Resolver_call_tuple', 'Resolver_call_any', 'Rejection_call_eptr', 'Rejection_call_error', 'Resolver_call_int', 'Resolver_call_void', 'Continuable_int_reject', 'Continuable_int_resolve', 'Promise_int_then'):
+for _f in ('Core_construct_int', 'Continuation_Sink_doResolve', 'Continuation_Sink_doReject', 'Chainer_int_call', 'Continuation_Chain_finishResolve', 'Continuation_Chain_finishResolve__lam0', 'Resolver_call_vector', 'Continuation_AddOne_finishResolve', 'Continuation_AddOne_doResolve', 'Continuation_AddOne_doReject', 'Promise_int_isFulfilled', 'Promise_int_isRejected', 'Continuable_int_resolve', 'Continuable_int_reject', 'Promise_int_then_AddOne', 'Resolver_call_tuple', 'Resolver_call_any', 'Rejection_call_eptr', 'Rejection_call_error', 'Resolver_call_int', 'Resolver_call_void', 'Continuable_int_reject', 'Continuable_int_resolve', 'Promise_int_then'):
     DEVIRT[(_f, 'reject')] = 'vs_req_reject'
     DEVIRT[(_f, 'resolve')] = 'vs_req_resolve'
     DEVIRT[(_f, 'isVoid')] = 'vs_core_isvoid'
@@ -271,7 +274,7 @@ T_ANY = {'types': {'std::shared_ptr<Data>': ANYD}, 'stubs': {DACC: {'expr': '($0
 # the local struct Data of When<Policy>::whenArgs derives from Policy::Data and adds `results` (a std::tuple of the inputs' value types)
 EXTRA_FIELDS = {'Pistache::Async::Impl::All::Data': ['struct vs_tuple2 results;'], 'Pistache::Async::Impl::Any::Data': ['struct vs_tuple2 results;']}
 
-GH = 'vs_exc, g_k_res, g_k_rej, g_res_calls, g_rej_calls, g_exp_exc, g_constructs, vs_req_slot'
+GH = 'vs_exc, g_k_res, g_k_rej, g_res_calls, g_rej_calls, g_exp_exc, g_constructs, vs_req_slot, g_chain_value'
 def settle_pre(core):
     return """requires FRESH(this, sizeof(*this)) && (%(c)s == 0 || (FRESH(%(c)s, sizeof(*%(c)s)) && CORE_OK(%(c)s) && g_exp_core == %(c)s && (%(c)s->requests.n == 0 || g_k < %(c)s->requests.n)))
         requires GHOST0""" % {'c': core}
@@ -296,9 +299,10 @@ REJ_LOOP = """
         invariant this->core_->state == ST_REJECTED && this->core_->exc == g_exp_exc && this->core_->mtx.held && guard.m == &this->core_->mtx
         decreases $END - $BEGIN"""
 
-def RES_CONTRACT(void):
+def RES_CONTRACT(void, stored=False):
     want_void = 'g_type_void' if void else '!g_type_void'
-    return settle_pre(C) + """
+    return settle_pre(C) + ('' if void else """
+        requires FRESH(arg, sizeof(*arg))""") + """
         assigns """ + GH + """; this->core_ != 0: this->core_->state, this->core_->allocated, this->core_->mtx
         # a Resolver that was cleared settles nothing
         ensures this->core_ == 0 ==> (!RET && vs_exc == 0 && g_rej_calls == 0 && g_res_calls == 0)
@@ -314,7 +318,9 @@ def RES_CONTRACT(void):
         ensures g_rej_calls == 0 && g_k_rej == 0 && g_k_res <= 1 && g_k_res <= g_res_calls && (this->core_ != 0 ==> g_res_calls <= this->core_->requests.n) && g_constructs <= 1
         ensures vs_exc == 0 || vs_exc == VS_EXC_RUNTIME_ERROR || (vs_exc == VS_EXC_OTHER_STD && g_res_calls > 0)
         ensures (vs_exc == VS_EXC_RUNTIME_ERROR && this->core_ != 0 && OLD(this->core_->state) == ST_PENDING && %(wv)s) ==> (g_res_calls == 0 && this->core_->state == ST_PENDING)
-        ensures this->core_ != 0 ==> (!this->core_->mtx.held && this->core_->requests.n == OLD(this->core_->requests.n))""" % {'wv': want_void, 'nc': '0' if void else '1'}
+        ensures this->core_ != 0 ==> (!this->core_->mtx.held && this->core_->requests.n == OLD(this->core_->requests.n))""" % {'wv': want_void, 'nc': '0' if void else '1'} + ("""
+        # the value the promise is fulfilled WITH is the value handed in (Core::construct<int> lowered from the real code, not assumed)
+        ensures (this->core_ != 0 && OLD(this->core_->state) == ST_PENDING && vs_exc == 0) ==> g_chain_value == *arg""" if stored else '')
 RES_LOOP = """
         assigns $BEGIN, vs_exc, g_k_res, g_res_calls, vs_req_slot
         invariant $BEGIN <= $END && $END == this->core_->requests.n && vs_exc == 0 && g_res_calls == $BEGIN && g_k_res == ((g_k < $BEGIN) ? 1 : 0) && g_k_rej == 0 && g_rej_calls == 0
@@ -354,7 +360,7 @@ ANY_RESOLVE = comb_pre(D, 'ANY_INV') + """
 DC = '(*data)->reject.core_'
 FUNCTIONS = [
     {'q': 'Pistache::Async::Rejection::operator()', 'sig': 'bool (std::__exception_ptr::exception_ptr) const', 'c': 'Rejection_call_eptr', 'contract': REJ_CONTRACT, 'loops': [REJ_LOOP]},
-    {'q': 'Pistache::Async::Resolver::operator()', 'sig': 'bool (int &&) const', 'c': 'Resolver_call_int', 'contract': RES_CONTRACT(False), 'loops': [RES_LOOP]},
+    {'q': 'Pistache::Async::Resolver::operator()', 'sig': 'bool (int &&) const', 'c': 'Resolver_call_int', 'contract': RES_CONTRACT(False, True), 'loops': [RES_LOOP]},
     {'q': 'Pistache::Async::Resolver::operator()', 'sig': 'bool () const', 'c': 'Resolver_call_void', 'contract': RES_CONTRACT(True), 'loops': [RES_LOOP]},
     {'q': 'Pistache::Async::Resolver::operator()', 'sig': 'bool (Pistache::Async::Any &&) const', 'c': 'Resolver_call_any', 'contract': RES_CONTRACT(False), 'loops': [RES_LOOP]},
     {'q': 'Pistache::Async::Resolver::operator()', 'sig': 'bool (std::tuple<int, int> &) const', 'c': 'Resolver_call_tuple', 'contract': RES_CONTRACT(False), 'loops': [RES_LOOP]},
@@ -601,6 +607,20 @@ PROOFS = [
 ]
 
 
+
+# ---- Core::construct<int>(int&&), lowered for real (the other instantiations -- tuple, vector, Any -- stay on the assumed model): the
+# value goes into the core's storage, `allocated` is set, the core becomes Fulfilled; a void core and a core of another value type raise
+FUNCTIONS += [
+    {'q': 'Pistache::Async::Private::Core::construct', 'sig_exact': 'void (int &&)', 'c': 'Core_construct_int',
+     'stubs': {'Pistache::TypeId::of': {'expr': 'VS_TID_INT'}},
+     'exit_ghost': 'if (vs_exc == 0 && (const void *)this == g_exp_core && g_constructs < 4) g_constructs++;',
+     'contract': """
+        requires FRESH(this, sizeof(*this)) && FRESH(args, sizeof(*args)) && vs_exc == 0
+        assigns vs_exc, this->allocated, this->state, g_value, g_chain_value, g_constructs
+        ensures (vs_exc == 0) == (!g_type_void && this->id == VS_TID_INT)
+        ensures vs_exc == 0 ==> (this->allocated && this->state == ST_FULFILLED && ((const void *)this == g_exp_core ? g_chain_value : g_value) == *args)
+        ensures vs_exc != 0 ==> (vs_exc == VS_EXC_RUNTIME_ERROR && this->state == OLD(this->state) && this->allocated == OLD(this->allocated) && g_value == OLD(g_value) && g_chain_value == OLD(g_chain_value))"""},
+]
 # ---- the variadic combinators: how an argument is attached (When<All>::when, both overloads)
 WC1 = 'struct vs_whencont'
 T_WHEN = {'types': dict(T_ALL['types'], **{'WhenContinuation<int, 1UL, std::shared_ptr<Data>>': WC1, 'WhenContinuation<int, 0UL, std::shared_ptr<Data>>': WC1,
@@ -638,6 +658,7 @@ LEMMA_PRE = r"""
 """
 RESET = "g_k_res = 0; g_k_rej = 0; g_res_calls = 0; g_rej_calls = 0; g_constructs = 0; g_pushed = 0;"
 PROOFS += [
+    {'name': 'Core_construct_int', 'enforce': 'Core_construct_int', 'props': ['C11']},
     {'name': 'When_attach_promise', 'enforce': 'When_All_when_promise', 'props': ['C11']},
     {'name': 'When_attach_value', 'enforce': 'When_All_when_value', 'props': ['C11']},
     {'name': 'lemma_attach_then_settle', 'enforce': None, 'lemma': 'lemma_attach_then_settle', 'replace': ['Promise_int_then_AddOne', 'Resolver_call_int'], 'props': ['C11'],
